@@ -311,6 +311,10 @@ class QlassF(QCircuitWrapper):
                 _USER_NS.update(globals())
             exec(f, _USER_NS)
             original_f = _USER_NS[fun_ast.body[0].name]
+            if fun_ast.body[0].name in globals():
+                # a function called like a name the sources use (Tuple, Qint, ...) must not hide
+                # that name from the sources executed later
+                _USER_NS[fun_ast.body[0].name] = globals()[fun_ast.body[0].name]
         else:
             original_f = f
 
